@@ -5,6 +5,8 @@ package main
 // state per sequence that the driver updates from each accepted call's write set.
 
 import (
+	"crypto/sha256"
+	"encoding/hex"
 	"encoding/json"
 	"fmt"
 	"math/rand"
@@ -120,6 +122,15 @@ func countOp(st *stats, o *op, out *outcome, m *model) {
 			st.count("transfer.refused.available+1.sender-holds-lock", 1)
 		}
 	}
+	if o.Kind == "nominate" && out.ok && strings.HasPrefix(o.Tag, "cosigned") {
+		st.count("nominate.accepted.cosigned-candidate", 1)
+	}
+	if o.Kind == "rawunlock" && out.ok && strings.Contains(o.Tag, ":exact") {
+		st.count("rawunlock.accepted.exactly-locked", 1)
+	}
+	if o.Kind == "rawunlock" && strings.Contains(o.Tag, ":avail+1") && m.acct(o.Args["from"]) != nil {
+		st.count("rawunlock.attempted.locked+1", 1)
+	}
 	if (o.Kind == "lock" || o.Kind == "unlock") && !out.ok {
 		st.count("directlock.refused."+o.viaName(), 1)
 	}
@@ -140,7 +151,7 @@ func (f *fastRunner) invoke(store *kvStore, o *op) (out *outcome) {
 		return out
 	}
 	ctx, err := f.e.n.Contract.NewContext(&contract.ContextConfig{Module: "xkernel", ContractName: req.ContractName,
-		Initiator: o.By, AuthRequire: []string{o.By}, State: sb, ResourceLimits: contract.MaxLimits})
+		Initiator: o.By, AuthRequire: o.auth(), State: sb, ResourceLimits: contract.MaxLimits})
 	if err != nil {
 		out.err, out.stage = "context: "+err.Error(), "preexec"
 		return out
@@ -176,7 +187,7 @@ func (f *fastRunner) runFast(r *ev.Run, idx int, minOps, maxOps int) {
 	chain := &fastChain{snaps: []*kvStore{store.clone(), store.clone(), store.clone()}}
 	f.e.rely.fast = chain
 	m := newModel(quotaOf(f.e.cfg))
-	g := &genCtx{rng: rng, m: m}
+	g := &genCtx{rng: rng, m: m, profile: pickProfile(rng)}
 	nops := minOps + rng.Intn(maxOps-minOps+1)
 	witness := func() map[string]interface{} {
 		return map[string]interface{}{"mode": "fast", "sequence": idx, "seed": r.Seed, "calls": lg.lines}
@@ -184,7 +195,7 @@ func (f *fastRunner) runFast(r *ev.Run, idx int, minOps, maxOps int) {
 	var cur *op
 	defer func() {
 		if p := recover(); p != nil {
-			r.Violation("govtoken|panic|"+cur.Kind, fmt.Sprintf("panic while executing %s: %v\n%s", cur, p, debug.Stack()), witness())
+			r.Violation(panicSig(cur), fmt.Sprintf("panic while executing %s: %v\n%s", cur, p, debug.Stack()), witness())
 		}
 	}()
 	bad := false
@@ -210,6 +221,7 @@ func (f *fastRunner) runFast(r *ev.Run, idx int, minOps, maxOps int) {
 			w := witness()
 			w["model_before"] = acctsString(m.accts)
 			w["bucket_after"] = after.String()
+			st.count("violations.fast."+p.sig, 1)
 			r.Violation(p.sig, p.detail+"\ncalls:\n"+strings.Join(lg.lines, "\n"), w)
 			bad = true
 		}
@@ -221,12 +233,29 @@ func (f *fastRunner) runFast(r *ev.Run, idx int, minOps, maxOps int) {
 func finishSeq(r *ev.Run, st *stats, lg *seqLog, m *model, mode string, bad bool) {
 	nontrivial := st.c["call.transfer.accepted"] > 0 && (st.c["call.propose.accepted"]+st.c["call.vote.accepted"]+
 		st.c["call.nominate.accepted"]+st.c["call.tvote.accepted"]) > 0
-	r.Case(mode+"|"+strings.Join(lg.shape, " "), nontrivial && !bad)
+	// the shape is the sequence of (call kind, structural class, accepted / refused); it is
+	// long, so the run keeps its digest
+	h := sha256.Sum256([]byte(strings.Join(lg.shape, " ")))
+	r.Case(mode+"|"+hex.EncodeToString(h[:12]), nontrivial && !bad)
 	st.count(mode+".sequences", 1)
 	if bad {
 		st.count(mode+".sequences.abandoned-at-violation", 1)
 	}
 	if nontrivial && !bad {
-		r.Sample(map[string]interface{}{"mode": mode, "calls": lg.lines, "final": acctsString(m.accts)})
+		calls := lg.lines
+		if len(calls) > 25 {
+			calls = append(append([]string{}, calls[:24]...), fmt.Sprintf("... %d more calls", len(lg.lines)-24))
+		}
+		r.Sample(map[string]interface{}{"mode": mode, "calls": calls, "final": acctsString(m.accts)})
 	}
+}
+
+// panicSig names a panic of xupercore code structurally: the call kind and, when the input
+// was deliberately ill-formed, in which way.
+func panicSig(o *op) string {
+	sig := "govtoken|panic|" + o.Kind
+	if c := o.Meta["malformed"]; c != "" {
+		sig += "|" + c
+	}
+	return sig
 }
